@@ -12,11 +12,6 @@ set_option linter.unusedSimpArgs false
 set_option linter.unusedVariables false
 namespace Sql
 
-/-- somewhere in the list an `nl()` token is directly followed by a `WHERE` keyword -/
-def wherePaired : List FNode → Bool
-  | a :: b :: r => (isNlTok a && b.matchKw "WHERE") || wherePaired (b :: r)
-  | _ => false
-
 theorem wherePaired_mid (x W : FNode) (hx : isNlTok x = true) (hW : W.matchKw "WHERE" = true) :
     ∀ (A B : List FNode), wherePaired (A ++ x :: W :: B) = true
   | [], B => by simp [wherePaired, hx, hW]
